@@ -6,27 +6,27 @@ PROPS = {
     "C01": {
         "title": "A machine never executes two tasks at once",
         "lean": ["TopsimProps.C02", "TopsimProps.SysSafety", "TopsimProofs.Bridge.Queries"],
-        "streams": [("default", 24, 300), ("adversary", 24, 400), ("chaotic", 24, 400), ("clusterops", 30, 600)],
+        "streams": [("default", 24, 300), ("adversary", 24, 400), ("chaotic", 24, 400), ("clusterops", 30, 600), ("big", 6, 80)],
         "monitor": ["C01"],
         "files": ["topsim/core/scheduler.py", "topsim/core/cluster.py", "topsim/core/task.py"],
     },
     "C02": {
         "title": "Every machine is in exactly one resource pool; counts are true",
         "lean": ["TopsimProps.C02", "TopsimProps.SysSafety"],
-        "streams": [("default", 24, 300), ("adversary", 16, 300), ("chaotic", 24, 400), ("clusterops", 40, 1200)],
+        "streams": [("default", 24, 300), ("adversary", 16, 300), ("chaotic", 24, 400), ("clusterops", 40, 1200), ("big", 6, 80), ("units", 6, 80), ("batch", 12, 200)],
         "monitor": ["C02"],
     },
     "C03": {
         "title": "Workflow precedence and data-transfer waits are respected",
         "lean": ["TopsimProps.C03", "TopsimProofs.Bridge.Runtime"],
-        "streams": [("default", 40, 600), ("contended", 16, 300)],
+        "streams": [("default", 40, 600), ("contended", 16, 300), ("big", 6, 80), ("units", 8, 100)],
         "direct": ["c06"],
         "monitor": ["C03"],
     },
     "C04": {
         "title": "Everything runs exactly once and a completed run is quiescent",
         "lean": ["TopsimProps.SysSafety", "TopsimProps.C04", "TopsimProps.C19", "TopsimProofs.Bridge.Queries"],
-        "streams": [("default", 32, 500), ("adversary", 24, 400), ("chaotic", 16, 300), ("edge", 16, 300), ("hotwait", 12, 200)],
+        "streams": [("default", 32, 500), ("adversary", 24, 400), ("chaotic", 16, 300), ("edge", 16, 300), ("hotwait", 12, 200), ("batch", 12, 200)],
         "monitor": ["C04"],
     },
     "C05": {
@@ -38,7 +38,7 @@ PROPS = {
     "C06": {
         "title": "Task runtime equals work over machine speed, at least one step",
         "lean": ["TopsimProps.C06", "TopsimProofs.Bridge.Runtime"],
-        "streams": [("default", 20, 300)],
+        "streams": [("default", 20, 300), ("units", 10, 150), ("big", 4, 60)],
         "direct": ["c06"],
         "monitor": ["C06"],
     },
@@ -57,7 +57,7 @@ PROPS = {
     "C09": {
         "title": "Batch reservations are exclusive, bounded and released",
         "lean": ["TopsimProps.C09", "TopsimProps.C02", "TopsimProofs.Bridge.Batch"],
-        "streams": [("batch", 40, 600), ("chaotic-batch", 16, 300), ("clusterops", 20, 400)],
+        "streams": [("batch", 40, 600), ("chaotic-batch", 16, 300), ("clusterops", 20, 400), ("big", 8, 100)],
         "monitor": ["C09"],
     },
     "C10": {
@@ -77,7 +77,7 @@ PROPS = {
     "C12": {
         "title": "The per-timestep table reports the true state, one row per step",
         "lean": ["TopsimProps.C12", "TopsimProps.SysSafety", "TopsimProps.Pause"],
-        "streams": [("default", 32, 500), ("overlap", 16, 300), ("runlevel", 16, 300), ("tierback", 12, 200), ("tiering", 8, 150)],
+        "streams": [("default", 32, 500), ("overlap", 16, 300), ("runlevel", 16, 300), ("tierback", 12, 200), ("tiering", 8, 150), ("units", 6, 80), ("big", 4, 60)],
         "monitor": ["C12"],
     },
     "C13": {
@@ -103,14 +103,14 @@ PROPS = {
     "C16": {
         "title": "Timestep units rescale every time-dependent quantity consistently",
         "lean": ["TopsimProps.C16", "TopsimProofs.Bridge.Config"],
-        "streams": [],
+        "streams": [("units", 10, 150)],
         "direct": ["c16"],
         "monitor": ["C16"],
     },
     "C17": {
         "title": "Plan-following scheduling keeps every task on its planned machine",
         "lean": ["TopsimProps.C17"],
-        "streams": [("dynamic", 40, 600), ("chaotic-dynamic", 12, 200)],
+        "streams": [("dynamic", 40, 600), ("chaotic-dynamic", 12, 200), ("big", 6, 80), ("dynamic-reuse", 12, 200)],
         "monitor": ["C17"],
     },
     "C18": {
